@@ -1,4 +1,5 @@
 import WS.Model.Handshake
+import WS.Proofs.Handshake
 /-
   C12 — Cross-origin requests are refused unless the origin is explicitly authorised (decision logic
   and the pattern matcher; `url.Parse(origin).Host` is an input of the model).
@@ -16,36 +17,50 @@ theorem origin_decision (host origin : Str) (parsed : Option Str) (pats : List S
         (equalFold host h = true ∨
           ∃ pre p post, pats = pre ++ p :: post ∧
             (∀ q ∈ pre, glob (toLower q) (toLower h) = .no) ∧ glob (toLower p) (toLower h) = .yes) := by
-  sorry
+  unfold authenticateOrigin
+  split
+  · rename_i h; simp [List.isEmpty_iff] at h; simp [h]
+  · rename_i ho
+    simp [List.isEmpty_iff] at ho
+    split
+    · simp [ho]
+    · rename_i h
+      split
+      · rename_i he; simp [he]
+      · rename_i he
+        rw [Proofs.Handshake.go_ok_iff]
+        simp [ho, he]
 
 /-- an Origin that does not parse is refused, whatever the patterns. -/
 theorem unparsable_refused (host origin : Str) (pats : List Str) (ho : origin ≠ []) :
     authenticateOrigin host origin none pats = .forbidden := by
-  sorry
+  unfold authenticateOrigin
+  simp [List.isEmpty_iff, ho]
 
 /-- without patterns only the request's own host is accepted: look-alikes (suffix, prefix, sub-domain,
 other port) are refused because `equalFold` is an equality on folded strings. -/
 theorem no_patterns_same_host_only (host origin h : Str) (ho : origin ≠ []) :
     authenticateOrigin host origin (some h) [] = .ok ↔ host.map foldChar = h.map foldChar := by
-  sorry
+  unfold authenticateOrigin
+  simp [List.isEmpty_iff, ho, authenticateOrigin.go, equalFold]
 
 /-- no pattern can rescue a host it does not match: if every pattern is a non-match the request is refused. -/
 theorem all_patterns_fail_refused (host origin h : Str) (pats : List Str) (ho : origin ≠ [])
     (hne : equalFold host h = false) (hp : ∀ p ∈ pats, glob (toLower p) (toLower h) = .no) :
     authenticateOrigin host origin (some h) pats = .forbidden := by
-  sorry
-
-def plainChar (c : Char) : Bool := c != '*' && c != '?' && c != '[' && c != '\\'
+  unfold authenticateOrigin
+  simp [List.isEmpty_iff, ho, hne]
+  exact Proofs.Handshake.go_forbidden_of_all_no h pats hp
 
 /-- a pattern without wildcard characters matches exactly itself (so a literal OriginPattern
 authorises exactly one host). -/
 theorem literal_pattern_exact (p name : Str) (hp : ∀ c ∈ p, plainChar c = true) :
     glob p name = (if name = p then .yes else .no) := by
-  sorry
+  exact Proofs.Handshake.glob_plain p name hp
 
 /-- `*` alone matches every name without a `/`. -/
 theorem star_matches_no_slash (name : Str) :
     glob ['*'] name = (if name.contains '/' then .no else .yes) := by
-  sorry
+  exact Proofs.Handshake.glob_star name
 
 end WS.Props.C12
